@@ -122,9 +122,9 @@ def gen(rs: int, tier: str, index: int) -> dict:
         for c in range(r.randint(1, 3)):
             ops = []
             for o in range(r.randint(1, 5)):
-                kind = r.choice(["plain", "labels", "labels", "task_id", "broker", "labels_task_id", "reuse", "reuse_override"])
+                kind = r.choice(["plain", "labels", "labels", "task_id", "broker", "labels_task_id", "reuse", "reuse_override", "reuse_concurrent"])
                 op: Dict[str, Any] = {"id": f"c{c}o{o}", "kind": kind, "pause_us": r.choice([0, 0, 1, 30, 400])}
-                if kind in ("labels", "labels_task_id", "reuse", "reuse_override"):
+                if kind in ("labels", "labels_task_id", "reuse", "reuse_override", "reuse_concurrent"):
                     op["labels"] = rand_labels(r, f"k{c}{o}_", 1, 3)
                     if r.random() < 0.3 and s["tasks"][0].get("labels"):
                         op["labels"][r.choice(sorted(s["tasks"][0]["labels"]))] = enc_label(rand_label(r))
@@ -137,6 +137,10 @@ def gen(rs: int, tier: str, index: int) -> dict:
                 ops.append(op)
             clients.append({"start_us": r.choice([0, 0, 10, 200]), "ops": ops})
         s["client_ops"] = clients
+        if r.random() < 0.5:
+            # a client-side pre_send middleware stamps every outgoing message with a label of its own (here: its task id), in place,
+            # and may suspend afterwards
+            s["config"]["client_stamper"] = {"us": r.choice([0, 1, 50, 500])}
     s["config"]["mode"] = mode
     s["config"]["shared_history"] = mode in ("history", "both") and r.random() < 0.4
     if use_retry:
@@ -178,7 +182,14 @@ async def _client_fn(world: Any, client: Any) -> None:
                         kicker = kicker.with_task_id(op["task_id"])
                     if kind == "broker":
                         kicker = kicker.with_broker(other)
-                    await kicker.kiq(op["id"])
+                    if kind == "reuse_concurrent":
+                        # the same kicker object sends two messages whose kiq() calls overlap
+                        async def send(oid: str) -> None:
+                            SENDING.set(oid)
+                            await kicker.kiq(oid)
+                        await asyncio.gather(send(op["id"]), send(op["id"] + "r"))
+                    else:
+                        await kicker.kiq(op["id"])
                     if kind == "reuse":
                         SENDING.set(op["id"] + "r")
                         await kicker.kiq(op["id"] + "r")
@@ -202,7 +213,7 @@ def simulate(script: dict) -> Any:
 
 
 def user(enc: dict) -> dict:
-    return {k: v for k, v in enc.items() if k not in FRAMEWORK_LABELS and k not in ("retry_on_error", "max_retries")}
+    return {k: v for k, v in enc.items() if k not in FRAMEWORK_LABELS and k not in ("retry_on_error", "max_retries", "stamp")}
 
 
 def oracle(script: dict, run: Any) -> List[Violation]:
@@ -296,7 +307,7 @@ def oracle(script: dict, run: Any) -> List[Violation]:
         kicks = {e[5]["k"]: e for e in h.kind("kick_call") if e[5]["n"] == 0}
         for c in script["client_ops"]:
             for op in c["ops"]:
-                ids = [op["id"]] + ([op["id"] + "r"] if op["kind"] in ("reuse", "reuse_override") else [])
+                ids = [op["id"]] + ([op["id"] + "r"] if op["kind"] in ("reuse", "reuse_override", "reuse_concurrent") else [])
                 for oid in ids:
                     key = op.get("task_id", oid)
                     e = kicks.get(key)
@@ -307,6 +318,9 @@ def oracle(script: dict, run: Any) -> List[Violation]:
                     want.update(op.get("labels") or {})
                     if op["kind"] == "reuse_override" and oid.endswith("r"):
                         want.update(op["labels2"])
+                    if script["config"].get("client_stamper") and e[5]["typed"].get("stamp") != ["str", e[5]["task_id"]]:
+                        out.append(Violation("C09/kicker-labels-leak", f"client op {oid} ({op['kind']}): the message with task id {e[5]['task_id']} left with the stamp "
+                                             f"{e[5]['typed'].get('stamp')} that the pre_send middleware wrote for another message", op=oid))
                     if user(e[5]["typed"]) != user(want):
                         out.append(Violation("C09/kicker-labels-leak", f"client op {oid} ({op['kind']}): sent labels {user(e[5]['typed'])}, expected declared+own overrides {user(want)}", op=oid))
                     want_tid = op.get("task_id", f"m{oid}")
